@@ -252,8 +252,9 @@ class _SmbTrace:
             out = orig_build(self, op_idx_counter, lbl_idx_counter, parameters, smb)
             rec["end"] = len(tr.logs[bi])
             rec["count_after"] = op_idx_counter.count
-            rec["out"] = [("ms" if isinstance(o, mmod.MacroStartSsbLabel) else "me" if isinstance(o, mmod.MacroEndSsbLabel) else "lbl" if isinstance(o, SsbLabel) else "op") for o in out]
-            rec["out_len"] = out[0].length_of_macro
+            # the returned list as blueprint kinds (it becomes part of the blueprint of an enclosing macro)
+            rec["out"] = [(["ms", o.length_of_macro, _pairs(o.parameter_mapping)] if isinstance(o, mmod.MacroStartSsbLabel) else ["me"] if isinstance(o, mmod.MacroEndSsbLabel)
+                           else ["lbl"] if isinstance(o, SsbLabel) else ["op"]) for o in out]
             return out
         M.build = build
 
